@@ -300,6 +300,11 @@ class ExprMixin:
         return V(a.sort, a.sort.concat(a.t, b.t))
     if isinstance(a, PyTuple) and isinstance(b, PyTuple) and isinstance(op, ast.Add):
       return PyTuple(a.items + b.items)
+    if isinstance(op, ast.Add) and ((isinstance(a, V) and isinstance(a.sort, S.Tup)) or (isinstance(b, V) and isinstance(b.sort, S.Tup))):
+      # fixed-arity tuples: concatenation of the components
+      comps = lambda v: [V(es, v.sort.get(v.t, i)) for i, es in enumerate(v.sort.elems)] if isinstance(v, V) else list(v.items)
+      if (isinstance(a, PyTuple) or isinstance(a.sort, S.Tup)) and (isinstance(b, PyTuple) or isinstance(b.sort, S.Tup)):
+        return PyTuple(comps(a) + comps(b))
     if isinstance(a, V) and isinstance(a.sort, S.SetOf):
       ss = a.sort
       if isinstance(b, PyTuple) and not b.items:
